@@ -208,6 +208,11 @@ impl Check for C12 {
     }
 
     fn exec(&self, c: &Case, st: &mut Stats) -> Result<ExecOk, Fail> {
+        if crate::checks::c07::ambiguous(&c.spec, &c.doc) {
+            // the placements the properties exclude (matters for shrunk documents only: the generator avoids them)
+            st.inc("out_of_scope_ambiguous");
+            return Ok(ExecOk { nontrivial: false });
+        }
         let e = enc::encode(&c.doc);
         let len = e.bytes.len();
         let cuts: Vec<usize> = match c.cut {
